@@ -4,11 +4,16 @@ from .expressions import Expression
 
 
 class FieldAsExpression(Expression):
-    def __init__(self, field):
+    def __init__(self, field, position=None):
         super().__init__()
         self.field = field
+        # position of the field in the frame the expression is evaluated on, when the caller knows it:
+        # a projection may list an attribute several times (select("a", "a")), the position tells the copies apart
+        self.position = position
 
     def eval(self, row, schema):
+        if self.position is not None:
+            return row[self.position]
         return row[find_position_in_schema(schema, self.field)]
 
     def __str__(self):
